@@ -30,6 +30,12 @@ class Transc (K : Type) where
       In the `ℝ` instance it is an arbitrary junk value; no theorem depends on it. -/
   nan : K
 
+/-- complex conjugation (identity on the real number types); used by the adjoint rules of the operator model -/
+class Conj (K : Type) where
+  conj : K → K
+
+instance : Conj Float := ⟨fun x => x⟩
+
 instance : Transc Float where
   sqrt := Float.sqrt
   exp := Float.exp
